@@ -63,7 +63,7 @@ TRANSP = ['polling', 'websocket', 'foo']
 JP = [None, '0', 'abc']
 SRV = ['T', 'A', 'H']      # H: the asyncio server behind the real aiohttp adapter
 API = ['send', 'disconnect-sid', 'disconnect-all', 'send-burst']
-API_STATES = ['none'] + STATES[1:]
+API_STATES = ['none'] + STATES[1:] + ['overdue']
 PI, PT = 25, 20
 
 
@@ -391,14 +391,27 @@ def run_api(rec, case):
     call, state, srv = case['api']
     rec.evaluations += 1
     rec.key('api/%s/%s/%s' % (call, state, srv))
-    sim = scen.make_sim(srv, server_kwargs={'ping_interval': PI,
-                                            'ping_timeout': PT})
+    kw = {'ping_interval': PI, 'ping_timeout': PT}
+    if state == 'overdue':
+        # nobody sweeps: the overdue session is still in the table when the
+        # application calls
+        kw['monitor_clients'] = False
+    sim = scen.make_sim(srv, server_kwargs=kw)
     desc = 'api=%s state=%s server=%s' % (call, state, srv)
 
     def V(key, msg):
         rec.viol(key, msg + ' | ' + desc, case)
     try:
-        sid, keep = prepare(sim, state)
+        if state == 'overdue':
+            # a polling client that fetched its PING and then went silent:
+            # no PONG, no further poll, the ping timeout has elapsed
+            h = sim.open_polling()
+            sim.poll(h)
+            sim.advance(PI + 0.5)
+            sim.advance(PT + 0.5)
+            sid, keep = h.sid, [h]
+        else:
+            sid, keep = prepare(sim, state)
         if call == 'send':
             t = sim.app_call('send', sid or 'nosuchsidAAAAAAAAAAA', 'data')
         elif call == 'send-burst':
@@ -414,8 +427,13 @@ def run_api(rec, case):
         sim.quiesce()
         rec.count('api_completion')
         if not t.done:
-            V(scen.hang_signature(sim, t), 'API call did not return: blocked '
-              'in %s' % scen.hang_signature(sim, t))
+            sig = scen.hang_signature(sim, t)
+            if state == 'overdue':
+                # (not K1: nothing is waiting to be read by a client that is
+                # already overdue - the CLOSE packet is dropped for it)
+                sig = 'api-call-on-overdue-session-hangs'
+            V(sig, 'API call did not return: blocked in %s' %
+              scen.hang_signature(sim, t))
             return
         if t.exc is not None:
             V('api-raises-%s-%s' % (type(t.exc).__name__, call),
@@ -578,6 +596,85 @@ def run_compete(rec, case):
         if len(dis) != 1:
             V('disconnect-count-after-competing-upgrades', '%d disconnect '
               'events %r' % (len(dis), [d['reason'] for d in dis]))
+        rec.count('gateway_protocol')
+        for name, w in (('first', wsA), ('second', wsB)):
+            if w.proto:
+                V('gateway-protocol', 'illegal event order on the %s '
+                  'WebSocket scope: %r' % (name, w.proto[:3]))
+        judge_background(rec, sim, V)
+    finally:
+        sim.teardown()
+
+
+def run_compete_fail(rec, case):
+    """Two upgrade sockets on one polling session that BOTH fail (the second
+    opened while the first was still in its handshake; the first ends
+    before the second): afterwards the session is an ordinary polling session
+    again - a poll returns what is queued, and a later upgrade succeeds."""
+    srv, a_probed, a_how, b_probed, b_how = case['competefail']
+    rec.evaluations += 1
+    rec.count('competing_upgrades_both_failing')
+    rec.key('competefail/' + '/'.join(map(str, case['competefail'])))
+    sim = scen.make_sim(srv, server_kwargs={'ping_interval': PI,
+                                            'ping_timeout': PT})
+    desc = ('COMPETING-UPGRADES-BOTH-FAIL first socket %s then %s; second '
+            'socket %s then %s; server=%s' % (
+                'probed' if a_probed else 'unprobed', a_how,
+                'probed' if b_probed else 'unprobed', b_how, srv))
+
+    def V(key, msg):
+        rec.viol(key, msg + ' | ' + desc, case)
+
+    def fail(ws, how):
+        if how == 'wrong':
+            ws.send('4x')
+        else:
+            ws.close()
+        sim.quiesce()
+        ws.close()
+        sim.quiesce()
+    try:
+        h = sim.open_polling()
+        p0 = sim.poll(h)
+        wsA, tA = sim.upgrade_ws(h)
+        sim.quiesce()
+        if a_probed:
+            wsA.send('2probe')
+            sim.quiesce()
+        wsB, tB = sim.upgrade_ws(h)
+        sim.quiesce()
+        if b_probed:
+            wsB.send('2probe')
+            sim.quiesce()
+        fail(wsA, a_how)
+        fail(wsB, b_how)
+        sim.app_call('send', h.sid, 'after-both')
+        sim.quiesce()
+        from vf.simbase import decode_payload
+        got = []
+        if p0.done and p0.code == 200:
+            got += [d for tp, d in decode_payload(p0.text()) if tp == 4]
+        for _ in range(3):
+            if 'after-both' in got or not p0.done:
+                break
+            p = sim.poll(h)
+            sim.quiesce()
+            if p.done and p.code == 200:
+                got += [d for tp, d in decode_payload(p.text()) if tp == 4]
+        if not p0.done:
+            # the poll that was pending all along gets it
+            sim.quiesce()
+        if 'after-both' not in got:
+            V('queued-message-not-retrievable-after-failed-upgrades',
+              'three polls after both attempts failed returned %r (flags: %r)'
+              % (got, {k: v for k, v in (sim.snapshot().get(h.sid) or
+                                         {}).items()
+                       if k in ('upgrading', 'upgraded', 'closed')}))
+            return
+        ws3, ok = sim.do_upgrade(h)
+        if not ok:
+            V('later-upgrade-refused', 'a correct upgrade after the two '
+              'failed attempts did not complete')
         rec.count('gateway_protocol')
         for name, w in (('first', wsA), ('second', wsB)):
             if w.proto:
@@ -788,6 +885,8 @@ def dispatch(rec, case):
         run_api(rec, case)
     elif 'odd' in case:
         run_odd(rec, case)
+    elif 'competefail' in case:
+        run_compete_fail(rec, case)
     elif 'slowdisc' in case:
         run_slowdisc(rec, case)
     elif 'compete' in case:
@@ -823,6 +922,13 @@ def plan(tier, seed):
                           'probe-then-close', 'probe-then-upgrade'):
                 for a_end in ('client-close', 'disconnect', 'silence'):
                     cases.append({'compete': [srv, b_when, b_act, a_end]})
+    for srv in SRV:
+        for a_probed in (0, 1):
+            for a_how in ('wrong', 'close'):
+                for b_probed in (0, 1):
+                    for b_how in ('wrong', 'close'):
+                        cases.append({'competefail': [srv, a_probed, a_how,
+                                                      b_probed, b_how]})
     for iodd in range(len(ODD)):
         for im in range(len(METHODS)):
             for ist in (0, 1, 2, 3, 5):
